@@ -380,6 +380,101 @@ func init() {
 		st.heap.storeLeaf(Fld(buf, bufferContentField), SConcat(cur, out))
 		return []Val{iteVal(ok, nilIface(), ex.nonNilErr("template", args...))}
 	})
+	// ---- golang.org/x/exp/maps / maps: Keys and Values return fresh slices, modify nothing
+	for _, name := range []string{"golang.org/x/exp/maps.Values", "golang.org/x/exp/maps.Keys", "maps.Keys", "maps.Values"} {
+		reg(name, "returns a freshly allocated slice (contents unspecified, length = number of entries); modifies nothing", func(ex *Exec, a []Val, st *State, sig *types.Signature) []Val {
+			n := st.heap.mapLen(tm(a[0]))
+			if !n.hasBound {
+				ex.fact(nil, Ge(n, IntT(0)))
+			}
+			return []Val{&Agg{F: []Val{ex.newObj(), IntT(0), n, n}}}
+		})
+	}
+	// ---- multierr
+	reg("go.uber.org/multierr.Append", "nil iff both errors are nil", func(ex *Exec, a []Val, st *State, sig *types.Signature) []Val {
+		l, r := a[0].(*Agg), a[1].(*Agg)
+		both := And(Eq(tm(l.F[0]), IntT(0)), Eq(tm(r.F[0]), IntT(0)))
+		return []Val{iteVal(both, nilIface(), ex.nonNilErr("multierr", tm(l.F[0]), tm(l.F[1]), tm(r.F[0]), tm(r.F[1])))}
+	})
+	regEff("go.uber.org/multierr.AppendInto", "*into becomes non-nil iff it was non-nil or err is non-nil; returns err != nil", func(ex *Exec, a []Val, st *State, sig *types.Signature) []Val {
+		into := tm(a[0])
+		e := a[1].(*Agg)
+		errT := sig.Params().At(1).Type()
+		cur := st.heap.load(into, errT, nil).(*Agg)
+		both := And(Eq(tm(cur.F[0]), IntT(0)), Eq(tm(e.F[0]), IntT(0)))
+		nv := iteVal(both, nilIface(), ex.nonNilErr("multierr", tm(cur.F[0]), tm(cur.F[1]), tm(e.F[0]), tm(e.F[1])))
+		st.heap.store(into, errT, nv)
+		return []Val{Not(Eq(tm(e.F[0]), IntT(0)))}
+	})
+	// ---- io readers: a reader is an immutable byte stream readerData(p) with a cursor (ghost
+	// state G@rpos) that, once exhausted, reports io.EOF or - if readerFails(p) - some other error.
+	ghostSorts["readerPos"] = arrSort(SPtr, SInt)
+	rdata := func(p *Term) *Term { return UF("reader.data", SStr, p) }
+	rfail := func(p *Term) *Term { return UF("reader.fails", SBool, p) }
+	rposGet := func(st *State, p *Term) *Term { return Select(st.heap.array("G@readerPos", ghostSorts["readerPos"]), p) }
+	rposSet := func(st *State, p *Term, v *Term) {
+		st.heap.set("G@readerPos", Store(st.heap.array("G@readerPos", ghostSorts["readerPos"]), p, v))
+	}
+	readErr := func(ex *Exec, p *Term) *Agg {
+		e := ex.nonNilErr("readfail", p).(*Agg)
+		// a read failure is neither io.EOF nor io.ErrUnexpectedEOF
+		for _, n := range []string{"EOF", "ErrUnexpectedEOF"} {
+			g := ex.errGlobal("io", n)
+			ex.fact(nil, Not(Eq(tm(e.F[1]), tm(g.F[1]))))
+			ex.fact(nil, Not(UF("boxedtag", SBool, tm(e.F[0]))))
+		}
+		return e
+	}
+	regEff("io.ReadFull", "reads exactly len(buf) bytes of the reader's stream or reports io.EOF (nothing left), io.ErrUnexpectedEOF (some left) or the reader's own error", func(ex *Exec, a []Val, st *State, sig *types.Signature) []Val {
+		p := tm(a[0].(*Agg).F[1])
+		buf := a[1].(*Agg)
+		n := tm(buf.F[2])
+		pos := rposGet(st, p)
+		L := ex.slen(rdata(p))
+		ex.fact(nil, And(Ge(pos, IntT(0)), Le(pos, L)))
+		rem := Sub(L, pos)
+		enough := Ge(rem, n)
+		if k, ok := n.IsInt(); ok && k <= 16 {
+			for j := int64(0); j < k; j++ {
+				addr := Elt(tm(buf.F[0]), Add(tm(buf.F[1]), IntT(j)))
+				b := Ite(enough, SAt(rdata(p), Add(pos, IntT(j))), Fresh("rd.byte", SInt))
+				st.heap.storeLeaf(addr, b)
+			}
+		} else {
+			ex.havocElems(st, tm(buf.F[0]), types.Typ[types.Byte])
+		}
+		rposSet(st, p, Ite(enough, Add(pos, n), L))
+		eof, ueof := ex.errGlobal("io", "EOF"), ex.errGlobal("io", "ErrUnexpectedEOF")
+		err := iteVal(enough, nilIface(), iteVal(rfail(p), readErr(ex, p), iteVal(Eq(rem, IntT(0)), eof, ueof)))
+		return []Val{Ite(enough, n, rem), err}
+	})
+	regEff("io.CopyN", "copies exactly n bytes of the reader's stream to a *bytes.Buffer writer, or fewer and reports io.EOF / the reader's own error", func(ex *Exec, a []Val, st *State, sig *types.Signature) []Val {
+		w := tm(a[0].(*Agg).F[1])
+		p := tm(a[1].(*Agg).F[1])
+		n := tm(a[2])
+		pos := rposGet(st, p)
+		L := ex.slen(rdata(p))
+		ex.fact(nil, And(Ge(pos, IntT(0)), Le(pos, L)))
+		rem := Sub(L, pos)
+		enough := Ge(rem, n)
+		cur := st.heap.loadLeaf(Fld(w, bufferContentField), SStr)
+		upto := Ite(enough, Add(pos, n), L)
+		st.heap.storeLeaf(Fld(w, bufferContentField), SConcat(cur, ex.ssub(rdata(p), pos, upto)))
+		rposSet(st, p, upto)
+		err := iteVal(enough, nilIface(), iteVal(rfail(p), readErr(ex, p), ex.errGlobal("io", "EOF")))
+		return []Val{Ite(enough, n, rem), err}
+	})
+	reg("(encoding/binary.bigEndian).Uint32", "b[0]<<24 | b[1]<<16 | b[2]<<8 | b[3]", func(ex *Exec, a []Val, st *State, sig *types.Signature) []Val {
+		b := a[1].(*Agg)
+		by := func(j int64) *Term {
+			v := st.heap.loadLeaf(Elt(tm(b.F[0]), Add(tm(b.F[1]), IntT(j))), SInt)
+			if !v.hasBound {
+				ex.fact(nil, And(Ge(v, IntT(0)), Lt(v, IntT(256))))
+			}
+			return v
+		}
+		return []Val{Add(Add(Mul(by(0), IntT(16777216)), Mul(by(1), IntT(65536))), Add(Mul(by(2), IntT(256)), by(3)))}
+	})
 	// ---- slices.SortFunc: afterwards adjacent elements are ordered by the comparator (permutation not modelled)
 	regEff("slices.SortFunc", "elements are permuted so that cmp(s[j], s[j+1]) <= 0 for adjacent elements; only this ordering fact is assumed, contents are otherwise arbitrary", func(ex *Exec, a []Val, st *State, sig *types.Signature) []Val {
 		sl := a[0].(*Agg)
@@ -436,6 +531,14 @@ func (ex *Exec) ghostByName(pkgPath, name string) *GhostDecl {
 // (keyed by the flattened argument when unary, a single cell when nullary).
 func (ex *Exec) ghostApply(st *State, g *GhostDecl, args []*Term, rt types.Type) Val {
 	rs := leafSort(rt)
+	switch g.Name {
+	case "readerData":
+		return UF("reader.data", SStr, args[len(args)-1])
+	case "readerFails":
+		return UF("reader.fails", SBool, args[len(args)-1])
+	case "readerPos":
+		return Select(st.heap.array("G@readerPos", ghostSorts["readerPos"]), args[len(args)-1])
+	}
 	if g.Name == "bufferContent" && len(args) == 1 {
 		return st.heap.loadLeaf(Fld(args[0], bufferContentField), SStr)
 	}
@@ -462,15 +565,30 @@ func (ex *Exec) ghostApply(st *State, g *GhostDecl, args []*Term, rt types.Type)
 	return nil
 }
 
-func (ex *Exec) ghostHavoc(st *State, g *GhostDecl) {
+func (ex *Exec) ghostHavoc(st *State, g *GhostDecl, key *Term) {
 	name := "G@" + g.Name
-	if s, ok := knownArrays[name]; ok {
-		st.heap.set(name, Fresh(name+"@h", s))
+	sort, ok := knownArrays[name]
+	if !ok {
+		sort = ghostSorts[g.Name]
+	}
+	if sort == "" {
+		unsupp("ghost state %s has not been given a sort yet", g.Name)
+	}
+	arr := st.heap.array(name, sort)
+	_, vs := arrKV(sort)
+	if key == nil {
+		ks, _ := arrKV(sort)
+		if ks == SInt {
+			st.heap.set(name, Store(arr, IntT(0), Fresh(name+"@h", vs)))
+			return
+		}
+		st.heap.set(name, Fresh(name+"@h", sort))
 		return
 	}
-	// array not materialised yet: nothing has been read from it, a later read sees a fresh epoch name
-	st.heap.arr[name] = nil
-	delete(st.heap.arr, name)
+	st.heap.set(name, Store(arr, key, Fresh(name+"@h", vs)))
 }
+
+// ghostSorts: array sort of each ghost state function (from its declared signature).
+var ghostSorts = map[string]string{}
 
 var _ = strings.TrimSpace
